@@ -45,7 +45,7 @@ def oracle(tier, rng, deep=False):
     ev = nontriv = 0
     nrep = 30 if tier == "quick" and not deep else (90 if tier == "quick" else 200)   # quick + broken obligation: 3x the quick search
     for _ in range(nrep):
-        mode = rng.choice(["warm", "warm", "path", "refit", "refit", "sqrt_path"])
+        mode = rng.choice(["warm", "warm", "path", "refit", "refit", "sqrt_path", "mtl_refit"])
         dname = rng.choice(["Quadratic", "Logistic", "Huber"])
         ctor, ykind, pgen = sl.DATAFITS[dname]
         X, y = sl.make_problem(rng, kind=ykind)
@@ -110,6 +110,33 @@ def oracle(tier, rng, deep=False):
                             failures.append(dict(site="certificate-on-path:AndersonCD", input=dict(inp, t=t), observed=dict(stop=float(stops[t]), w=w.tolist(), b=float(b)),
                                                  expected=dict(violation=viol, worst=worst)))
                             break
+            elif mode == "mtl_refit":
+                # multitask estimator refitted (warm_start on / off, alpha and fit_intercept changed): every fit that reports
+                # convergence must be stationary for ITS OWN problem (non-centred targets)
+                from skglm.estimators import MultiTaskLasso
+                Xm, _ = sl.make_problem(rng, kind="real")
+                n_, p_ = Xm.shape
+                T = rng.randint(2, 3)
+                Ym = Xm @ np.array([[rng.gauss(0, 1) if rng.random() < 0.5 else 0.0 for _ in range(T)] for _ in range(p_)]) + rng.choice([2.0, -3.0]) \
+                    + np.array([[rng.gauss(0, 0.2) for _ in range(T)] for _ in range(n_)])
+                am = float(np.max(np.linalg.norm(Xm.T @ (Ym - Ym.mean(axis=0)), axis=1))) / n_
+                a_cur, fi_m = am * 0.5, True
+                est = MultiTaskLasso(alpha=a_cur, fit_intercept=fi_m, warm_start=rng.random() < 0.8, tol=1e-8, max_iter=200)
+                hist = []
+                for _step in range(rng.randint(2, 3)):
+                    est.fit(Xm, Ym)
+                    hist.append(dict(alpha=a_cur, fit_intercept=est.fit_intercept))
+                    ev += 1
+                    nontriv += 1
+                    Wc = np.asarray(est.coef_, dtype=float).T                    # (n_features, n_tasks)
+                    bm = np.asarray(est.intercept_, dtype=float) if est.fit_intercept else 0.0
+                    viol = sl.mtl_violation(Xm, Ym, Wc, bm, a_cur, est.fit_intercept)
+                    if getattr(est, "stop_crit_", 0.0) <= 1e-8 and viol > 1e-5:
+                        failures.append(dict(site="certificate-after-refit:MultiTaskLasso", input=dict(mode=mode, X=Xm.tolist(), Y=Ym.tolist(), history=hist, warm_start=est.warm_start),
+                                             observed=dict(W=Wc.tolist(), b=np.asarray(bm).tolist()), expected=dict(violation=viol)))
+                        break
+                    a_cur = am * rng.choice([0.1, 0.3, 0.7])
+                    est.alpha = a_cur
             elif mode == "sqrt_path":
                 # SqrtLasso.path: every point of the returned path must be stationary for ITS OWN alpha
                 from skglm.experimental.sqrt_lasso import SqrtLasso
@@ -120,12 +147,12 @@ def oracle(tier, rng, deep=False):
                 est = SqrtLasso(tol=1e-9, max_iter=200)
                 al_out, coefs = est.path(Xr, yr, alphas=alphas)[:2]
                 coefs = np.asarray(coefs)
-                if coefs.shape[0] != Xr.shape[1]:
+                if coefs.shape[0] != len(al_out):           # the implementation returns one ROW per alpha (n_alphas, n_features)
                     coefs = coefs.T
                 for t_, a in enumerate(al_out):
                     ev += 1
                     nontriv += 1
-                    w = coefs[:, t_]
+                    w = coefs[t_]
                     res = yr - Xr @ w
                     nr = float(np.linalg.norm(res))
                     if nr < 2e-2 * float(np.linalg.norm(yr)):
